@@ -17,7 +17,9 @@ use crate::fontgen::gvar::{
     cvar_table, region_is_implied, Choices, CompArgs, ComponentEnc, EncStats, GlyphVarEnc, IvdEnc, TupleEnc,
 };
 use crate::fontgen::sfnt::find_table;
-use crate::fontgen::var::{avar_table, fvar_table, AxisModel};
+use crate::fontgen::var::{avar_table, fvar_table, AxisModel, InstanceModel};
+use crate::fontgen::varext::{gasp_table, hhea_with, name_table_records, or_component_flag, os2_table, post_v3_with, stat_table, vhea_table, vvar_from_hvar, Os2Values, StatValue, StatValueEnc};
+use crate::refmodel::varext::{check_name_table, gasp_ranges, read_vertical, vhea_fields};
 use crate::refmodel::varmodel::{
     bbox_of, composed_points, composed_points_model, decode_cvar, decode_gvar, eval_cvt, decode_hvar, decode_mvar, eval_glyph, implied_axis_region, metric_fields,
     axis_region_invalid, read_font, AxisRegion, HvarModel, IvsModel, OutShape, ParsedFont, Region, TupleVar,
@@ -434,8 +436,13 @@ fn coord_spec() -> impl Strategy<Value = CoordSpec> {
 }
 
 pub fn case_strategy() -> impl Strategy<Value = Case> {
+    case_strategy_axes(3)
+}
+
+/// As `case_strategy`, with 1..=`max_axes` axes.
+fn case_strategy_axes(max_axes: usize) -> impl Strategy<Value = Case> {
     (
-        proptest::collection::vec(axis_spec(), 1..=3),
+        proptest::collection::vec(axis_spec(), 1..=max_axes),
         proptest::bool::weighted(0.3),
         proptest::collection::vec(glyph_spec(), 1..=5),
         proptest::option::weighted(0.5, hvar_spec()),
@@ -542,12 +549,14 @@ struct Built {
     axes: Vec<AxisModel>,
     stats: EncStats,
     all_regions: Vec<Region>,
+    /// what the extension section added (None for the `model` section)
+    ext: Option<ExtBuilt>,
 }
 
 fn resolve_region(spec: &[AxisRegSpec], n_axes: usize, allow_invalid: bool) -> Region {
-    let mut r: Region = spec
-        .iter()
-        .take(n_axes)
+    // (the specs carry three axis entries; a fourth axis — extension section — reuses the first)
+    let mut r: Region = (0..n_axes)
+        .map(|i| &spec[i % spec.len()])
         .map(|a| match a {
             AxisRegSpec::Invalid(s, p, e) if allow_invalid => AxisRegion { start: *s, peak: *p, end: *e },
             AxisRegSpec::Invalid(_, p, _) => implied_axis_region(*p),
@@ -829,6 +838,13 @@ fn encode_mvar(m: &MvarSpec, n_axes: usize, allow_invalid: bool) -> (Vec<u8>, (V
 }
 
 fn build(case: &Case) -> Built {
+    build_ext(case, None)
+}
+
+/// `build` with the additions of the extension section (`ext`): vertical metrics, STAT, named
+/// instances, an OS/2 table of any version, a richer MVAR, ... With `None` the font is exactly
+/// the one the `model` section (and C09) has always used.
+fn build_ext(case: &Case, ext: Option<&ExtSpec>) -> Built {
     let n_axes = case.axes.len();
     let mut ch = Choices::new(case.enc_seed);
     let mut stats = EncStats::default();
@@ -945,6 +961,18 @@ fn build(case: &Case) -> Built {
             outer.push(gi);
         }
     }
+    // ---- extension: USE_MY_METRICS on one component of some composites
+    let mut umm: Vec<(usize, usize)> = Vec::new();
+    if let Some(x) = ext {
+        for gi in 0..glyphs.len() {
+            if glyphs[gi].kind == Kind::Composite && !glyphs[gi].comps.is_empty() && mix64(x.umm_seed as u64 ^ ((gi as u64) << 32)) % 3 == 0 {
+                let ci = (mix64(x.umm_seed as u64 ^ 0x77 ^ ((gi as u64) << 20)) % glyphs[gi].comps.len() as u64) as usize;
+                if or_component_flag(&mut glyphs[gi].record, ci, 0x0200) {
+                    umm.push((gi, ci));
+                }
+            }
+        }
+    }
     // ---- metrics: lsb = xMin - pp1 (empty glyph: xMin counts as 0, lsb 0 as the spec asks)
     for (gi, g) in case.glyphs.iter().enumerate() {
         let m = &mut glyphs[gi];
@@ -1024,6 +1052,23 @@ fn build(case: &Case) -> Built {
                     .collect(),
             };
             let mut deltas = deltas;
+            if ext.is_some() && glyphs[gi].big && t.seed & 3 == 0 {
+                // extension: a long stretch of zero deltas (zero runs of the maximal length 64)
+                let keep = if t.seed & 4 == 0 { 0 } else { 1 };
+                for (j, d) in deltas.iter_mut().enumerate() {
+                    let real = match &points {
+                        None => j < n,
+                        Some(ps) => (ps[j] as usize) < n,
+                    };
+                    if real {
+                        if keep == 0 {
+                            d.1 = 0;
+                        } else {
+                            d.0 = 0;
+                        }
+                    }
+                }
+            }
             if locked(gi) {
                 // the advance of this glyph varies only through the shared metric tuple below
                 match &points {
@@ -1128,7 +1173,16 @@ fn build(case: &Case) -> Built {
     // ---- MVAR
     let mut mvar_model = None;
     let mut mvar_bytes = None;
-    if let Some(m) = &case.mvar {
+    if let Some(x) = ext.and_then(|x| x.mvar.as_ref()) {
+        let (bytes, model, regions) = encode_mvar_ext(x, n_axes);
+        for r in &regions {
+            if !all_regions.contains(r) {
+                all_regions.push(r.clone());
+            }
+        }
+        mvar_model = Some(model);
+        mvar_bytes = Some(bytes);
+    } else if let Some(m) = case.mvar.as_ref().filter(|_| ext.is_none()) {
         let (bytes, model, regions) = encode_mvar(m, n_axes, case.invalid_regions);
         for r in &regions {
             if !all_regions.contains(r) {
@@ -1217,7 +1271,9 @@ fn build(case: &Case) -> Built {
     for (g, d) in glyphs.iter().zip(dec.iter()) {
         assert_eq!(&g.tuples, d, "gvar round trip");
     }
+    let ext_built = ext.map(|x| apply_ext(x, &mut f, &glyphs, &axes, &all_regions, num_h_metrics, umm, &mut extra_users));
     Built {
+        ext: ext_built,
         font: f.build(),
         extra_users,
         metric_mode,
@@ -1247,7 +1303,7 @@ fn user_from_norm(ax: &AxisModel, n: i16) -> i32 {
 fn users_of(case: &Case, b: &Built) -> Vec<Vec<i32>> {
     let mut users: Vec<Vec<i32>> = vec![b.axes.iter().map(|a| a.default).collect()];
     for cs in &case.coords {
-        users.push(b.axes.iter().enumerate().map(|(i, a)| user_value(&cs[i], a, i, &b.all_regions)).collect());
+        users.push(b.axes.iter().enumerate().map(|(i, a)| user_value(&cs[i % cs.len()], a, i, &b.all_regions)).collect());
     }
     users.extend(b.extra_users.iter().cloned());
     users
@@ -1655,6 +1711,15 @@ struct Agg {
     /// a failure attributed to a known finding by its defect model: reported only if nothing
     /// else fails in the case, so that the search continues behind the finding
     deferred: Option<Fail>,
+    // extension section
+    vert_checked: u32,
+    vert_off_default_nonzero: u32,
+    vert_defect: u32,
+    vhea_mvar_checked: u32,
+    vhea_mvar_defect: u32,
+    gasp_checked: u32,
+    gasp_defect: u32,
+    umm_checked: u32,
 }
 
 /// For other checks (C09): the generated variable font of a case and the user coordinate tuples
@@ -1709,6 +1774,9 @@ fn check_case_built(case: &Case, b: &Built, rec: &mut Rec) -> CaseResult {
         }
         check_loc(&b.font, user, &loc, rec)?;
         check_instance(&b.model, &src, &src_fields, &out, &loc, rec, &mut agg)?;
+        if let Some(x) = &b.ext {
+            check_ext_instance(x, b, &out, &loc, &mut agg)?;
+        }
         locs.push(loc);
     }
     // ---- classification
@@ -1795,10 +1863,825 @@ fn check_case_built(case: &Case, b: &Built, rec: &mut Rec) -> CaseResult {
     });
     let _ = region_is_implied;
     let _ = find_table;
+    if let Some(x) = &b.ext {
+        classify_ext(x, b, &agg, rec);
+    }
     if let Some(f) = agg.deferred.take() {
         return Err(f);
     }
     Ok(())
+}
+
+// ------------------------------------------------------------------ extension section (`model-ext`)
+//
+// The same variation model and the same checks as `model`, on fonts that additionally carry what
+// `model` leaves out: vertical metrics (vhea / vmtx, optional VVAR built to agree with the gvar
+// deltas of phantom points 3 and 4), an MVAR table over every value tag the specification
+// registers (plus unknown ones) through a multi-subtable ItemVariationStore with LONG_WORDS /
+// word-count edge cases, an OS/2 table of any version, gasp, STAT with axis value tables of
+// formats 1-4 (or no STAT), named instances, a name table with a free choice of records, up to
+// four axes, longer avar maps, USE_MY_METRICS, more anchored components, and corner coordinates.
+
+#[derive(Clone, Debug)]
+pub struct VertSpec {
+    pub heights: Vec<u16>,
+    pub tsbs: Vec<i16>,
+    pub short_tail: bool,
+    pub v11: bool,
+    pub vvar: Option<HvarSpec>,
+    pub vorg_map: bool,
+    pub vals: Vec<i16>,
+}
+
+#[derive(Clone, Debug)]
+pub struct StatValSpec {
+    pub format: u8,
+    pub axis: u32,
+    pub elidable: bool,
+    pub older: bool,
+    pub at: CoordSpec,
+    pub at2: CoordSpec,
+    pub at3: CoordSpec,
+    pub n4: u8,
+    pub name: u8,
+}
+
+#[derive(Clone, Debug)]
+pub struct StatSpec {
+    pub minor: u8,
+    pub rotate: u8,
+    pub extra_axis: bool,
+    pub axis_size_extra: u8,
+    pub values: Vec<StatValSpec>,
+    pub fallback: u8,
+    pub gap: u8,
+}
+
+#[derive(Clone, Debug)]
+pub struct InstSpec {
+    pub coords: Vec<CoordSpec>,
+    pub ps: bool,
+}
+
+#[derive(Clone, Debug)]
+pub struct MvarExtSpec {
+    pub tags: Vec<u8>,
+    pub regions: Vec<Vec<AxisRegSpec>>,
+    pub deltas: Vec<Vec<i16>>,
+    pub subtables: u8,
+    /// bit k: subtable k uses LONG_WORDS
+    pub long_mask: u8,
+    pub extra_words: u8,
+    /// bit k: subtable k starts with a row no record refers to, holding large values
+    pub big_mask: u8,
+    pub drop_zero_columns: bool,
+    pub record_extra: u8,
+    pub seed: u32,
+}
+
+#[derive(Clone, Debug)]
+pub struct ExtSpec {
+    pub vert: Option<VertSpec>,
+    pub os2_kind: u8,
+    pub stat: Option<StatSpec>,
+    pub name_mask: u8,
+    pub name_gap: u8,
+    pub instances: Vec<InstSpec>,
+    pub mvar: Option<MvarExtSpec>,
+    pub umm_seed: u32,
+    pub vals: Vec<i16>,
+    pub gasp: Option<u8>,
+    pub corner_seed: u32,
+    pub avar_extra: Vec<(i16, i16)>,
+    pub force_avar: bool,
+    pub big_first: Option<(u16, u8)>,
+}
+
+#[derive(Clone, Debug)]
+pub struct ExtCase {
+    pub base: Case,
+    pub ext: ExtSpec,
+}
+
+const MVAR_TAGS_EXT: [&[u8; 4]; 38] = [
+    b"hasc", b"hdsc", b"hlgp", b"hcla", b"hcld", b"xhgt", b"cpht", b"unds", b"undo", b"stro", b"strs", b"sbxs", b"sbys", b"sbxo",
+    b"sbyo", b"spxs", b"spys", b"spxo", b"spyo", b"hcrs", b"hcrn", b"hcof", b"vasc", b"vdsc", b"vlgp", b"vcrs", b"vcrn", b"vcof",
+    b"gsp0", b"gsp1", b"gsp2", b"gsp9", b"zzzz", b"AAAA", b"HASC", b"xhgT", b"hasd", b"undp",
+];
+
+fn vert_spec() -> impl Strategy<Value = VertSpec> {
+    (
+        proptest::collection::vec(prop_oneof![4 => 300u16..1600, 1 => Just(1000u16)], 5),
+        proptest::collection::vec(prop_oneof![3 => -200i16..300, 1 => Just(0i16)], 5),
+        proptest::bool::weighted(0.3),
+        any::<bool>(),
+        proptest::option::weighted(0.55, hvar_spec()),
+        proptest::bool::weighted(0.2),
+        proptest::collection::vec(-60i16..=60, 6),
+    )
+        .prop_map(|(heights, tsbs, short_tail, v11, vvar, vorg_map, vals)| VertSpec { heights, tsbs, short_tail, v11, vvar, vorg_map, vals })
+}
+
+fn stat_val_spec() -> impl Strategy<Value = StatValSpec> {
+    (1u8..=4, any::<u32>(), proptest::bool::weighted(0.35), proptest::bool::weighted(0.15), coord_spec(), coord_spec(), coord_spec(), 1u8..=4, 0u8..6)
+        .prop_map(|(format, axis, elidable, older, at, at2, at3, n4, name)| StatValSpec { format, axis, elidable, older, at, at2, at3, n4, name })
+}
+
+fn stat_spec() -> impl Strategy<Value = StatSpec> {
+    (
+        0u8..=2,
+        0u8..8,
+        proptest::bool::weighted(0.3),
+        prop_oneof![4 => Just(0u8), 1 => Just(4u8)],
+        proptest::collection::vec(stat_val_spec(), 0..=8),
+        0u8..4,
+        prop_oneof![3 => Just(0u8), 1 => 1u8..6],
+    )
+        .prop_map(|(minor, rotate, extra_axis, axis_size_extra, values, fallback, gap)| StatSpec { minor, rotate, extra_axis, axis_size_extra, values, fallback, gap })
+}
+
+fn mvar_ext_spec() -> impl Strategy<Value = MvarExtSpec> {
+    (
+        proptest::collection::vec(0u8..MVAR_TAGS_EXT.len() as u8, 1..=14),
+        proptest::collection::vec(proptest::collection::vec(axis_reg(), 3), 1..=4),
+        proptest::collection::vec(proptest::collection::vec(prop_oneof![3 => -100i16..=100, 2 => -300i16..=300, 1 => Just(0i16)], 3), 8),
+        1u8..=4,
+        prop_oneof![2 => Just(0u8), 1 => any::<u8>()],
+        0u8..4,
+        prop_oneof![1 => Just(0u8), 1 => any::<u8>()],
+        any::<bool>(),
+        prop_oneof![3 => Just(0u8), 1 => 1u8..6],
+        any::<u32>(),
+    )
+        .prop_map(|(tags, regions, deltas, subtables, long_mask, extra_words, big_mask, drop_zero_columns, record_extra, seed)| MvarExtSpec {
+            tags,
+            regions,
+            deltas,
+            subtables,
+            long_mask,
+            extra_words,
+            big_mask,
+            drop_zero_columns,
+            record_extra,
+            seed,
+        })
+}
+
+fn ext_spec() -> impl Strategy<Value = ExtSpec> {
+    (
+        (proptest::option::weighted(0.55, vert_spec()), 0u8..=6, proptest::option::weighted(0.65, stat_spec()), any::<u8>(), prop_oneof![3 => Just(0u8), 1 => 1u8..5]),
+        proptest::collection::vec((proptest::collection::vec(coord_spec(), 4), any::<bool>()).prop_map(|(coords, ps)| InstSpec { coords, ps }), 0..=3),
+        proptest::option::weighted(0.7, mvar_ext_spec()),
+        any::<u32>(),
+        proptest::collection::vec(-300i16..=900, 24),
+        proptest::option::weighted(0.4, any::<u8>()),
+        any::<u32>(),
+        proptest::collection::vec((1i16..16384, 0i16..=16384), 0..=4),
+        proptest::bool::weighted(0.3),
+        proptest::option::weighted(0.25, (proptest::sample::select(vec![129u16, 200, 256, 257, 300, 420]), 1u8..=3)),
+    )
+        .prop_map(|((vert, os2_kind, stat, name_mask, name_gap), instances, mvar, umm_seed, vals, gasp, corner_seed, avar_extra, force_avar, big_first)| ExtSpec {
+            vert,
+            os2_kind,
+            stat,
+            name_mask,
+            name_gap,
+            instances,
+            mvar,
+            umm_seed,
+            vals,
+            gasp,
+            corner_seed,
+            avar_extra,
+            force_avar,
+            big_first,
+        })
+}
+
+pub fn ext_case_strategy() -> impl Strategy<Value = ExtCase> {
+    (case_strategy_axes(4), ext_spec()).prop_map(|(mut base, ext)| {
+        // regions the specification calls invalid have their own signature in `model`
+        base.invalid_regions = false;
+        base.with_avar |= ext.force_avar;
+        // longer avar segment maps
+        for (i, a) in base.axes.iter_mut().enumerate() {
+            for (k, e) in ext.avar_extra.iter().enumerate() {
+                let m = 1 + ((e.0 as i32 + 4099 * (i as i32 + 1) * (k as i32 + 1)) % 16383) as i16;
+                a.avar.push((m, e.1));
+            }
+        }
+        // a glyph with more than 128 / 255 points more often
+        if let Some((n, contours)) = ext.big_first {
+            let at = (ext.umm_seed as usize >> 3) % base.glyphs.len();
+            base.glyphs[at].shape = ShapeSpec::Big { n, contours, seed: ext.umm_seed };
+        }
+        // anchored (point-matched) components more often
+        for (gi, g) in base.glyphs.iter_mut().enumerate() {
+            if let ShapeSpec::Composite(cs) = &mut g.shape {
+                for (ci, c) in cs.iter_mut().enumerate() {
+                    if ci > 0 && c.anchor.is_none() && mix64(ext.umm_seed as u64 ^ ((gi * 8 + ci) as u64) << 33) % 4 == 0 {
+                        c.anchor = Some((c.target.rotate_left(7), c.target.rotate_left(19)));
+                    }
+                }
+            }
+        }
+        ExtCase { base, ext }
+    })
+}
+
+struct VertModel {
+    /// (advance height, top side bearing) per glyph in the default master
+    metrics: Vec<(u16, i16)>,
+    vvar: Option<HvarModel>,
+    tsb_mapped: bool,
+    num_long: u16,
+}
+
+struct ExtBuilt {
+    vert: Option<VertModel>,
+    umm: Vec<(usize, usize)>,
+    gasp: Option<Vec<(u16, u16)>>,
+    stat_formats: Option<u8>,
+    stat_minor: u8,
+    n_instances: usize,
+    os2_kind: u8,
+    mvar_known_tags: usize,
+    mvar_unknown_tags: usize,
+    mvar_subtables: usize,
+    mvar_long: bool,
+    mvar_big: bool,
+    has_anchor: bool,
+    name_mask: u8,
+    corner_users: usize,
+}
+
+/// MVAR over the full tag list: tag k goes to subtable k mod n; a subtable may start with a row
+/// that no record refers to (large values: forces word / long-word columns and shifts the rows
+/// that are referred to), may use LONG_WORDS, extra word columns, and a column subset.
+fn encode_mvar_ext(m: &MvarExtSpec, n_axes: usize) -> (Vec<u8>, (Vec<([u8; 4], u16, u16)>, IvsModel), Vec<Region>) {
+    let mut regions: Vec<Region> = Vec::new();
+    for r in &m.regions {
+        let reg = resolve_region(r, n_axes, false);
+        if !regions.contains(&reg) {
+            regions.push(reg);
+        }
+    }
+    let mut tags: Vec<[u8; 4]> = Vec::new();
+    for t in &m.tags {
+        let tag = *MVAR_TAGS_EXT[*t as usize];
+        if !tags.contains(&tag) {
+            tags.push(tag);
+        }
+    }
+    let k = (m.subtables as usize).max(1);
+    let nr = regions.len();
+    let mut rows: Vec<Vec<Vec<i32>>> = vec![Vec::new(); k];
+    for (sub, r) in rows.iter_mut().enumerate() {
+        if m.big_mask >> sub & 1 == 1 {
+            let long = m.long_mask >> sub & 1 == 1;
+            r.push(
+                (0..nr)
+                    .map(|c| {
+                        let h = mix64(m.seed as u64 ^ ((sub * 16 + c) as u64) << 8);
+                        let mag = if long { 40_000 + (h % 2_000_000) as i32 } else { 200 + (h % 30_000) as i32 };
+                        if h & (1 << 40) != 0 {
+                            -mag
+                        } else {
+                            mag
+                        }
+                    })
+                    .collect(),
+            );
+        }
+    }
+    let mut recs: Vec<([u8; 4], u16, u16)> = Vec::new();
+    for (i, tag) in tags.iter().enumerate() {
+        let sub = i % k;
+        let row: Vec<i32> = (0..nr).map(|r| m.deltas[i % m.deltas.len()][r % 3] as i32).collect();
+        recs.push((*tag, sub as u16, rows[sub].len() as u16));
+        rows[sub].push(row);
+    }
+    let mut subs: Vec<IvdEnc> = Vec::new();
+    for (sub, r) in rows.into_iter().enumerate() {
+        // a permutation of the region columns; all-zero columns may be left out
+        let mut cols: Vec<u16> = (0..nr as u16).collect();
+        let mut c2 = Choices::new(m.seed as u64 ^ (sub as u64) << 50);
+        for i in (1..cols.len()).rev() {
+            cols.swap(i, c2.below(i + 1));
+        }
+        if m.drop_zero_columns {
+            cols.retain(|c| r.iter().any(|row| row[*c as usize] != 0));
+        }
+        let proj: Vec<Vec<i32>> = r.iter().map(|row| cols.iter().map(|c| row[*c as usize]).collect()).collect();
+        subs.push(IvdEnc::normalise(cols, proj, m.long_mask >> sub & 1 == 1, m.extra_words as usize));
+    }
+    let ivs_model = IvsModel { regions: regions.clone(), subtables: subs.iter().map(|s| (s.region_indexes.clone(), s.rows.clone())).collect() };
+    let ivs = item_variation_store(n_axes, &regions, &subs);
+    let bytes = mvar_table(&recs, 8 + m.record_extra as u16 * 2, Some(&ivs));
+    let (drecs, divs) = decode_mvar(&bytes).expect("own MVAR decodes");
+    let mut sorted = recs.clone();
+    sorted.sort();
+    assert_eq!(drecs, sorted, "MVAR records round trip");
+    assert_eq!(divs.as_ref(), Some(&ivs_model), "MVAR store round trip");
+    (bytes, (recs, ivs_model), regions)
+}
+
+fn apply_ext(
+    x: &ExtSpec,
+    f: &mut BasicFont,
+    glyphs: &[GlyphModel],
+    axes: &[AxisModel],
+    all_regions: &[Region],
+    num_h_metrics: u16,
+    umm: Vec<(usize, usize)>,
+    extra_users: &mut Vec<Vec<i32>>,
+) -> ExtBuilt {
+    let n = glyphs.len();
+    let n_axes = axes.len();
+    let v = &x.vals;
+    // ---- OS/2, hhea, post with distinct values in every field MVAR can address
+    let os2v = Os2Values {
+        sub_super_strike: [v[0], v[1], v[2], v[3], v[4], v[5], v[6], v[7], v[8], v[9]],
+        typo: (700 + v[10] / 4, -300 + v[11] / 4, v[12].abs() / 4),
+        win: (800 + v[13].unsigned_abs() / 2, 200 + v[14].unsigned_abs() / 2),
+        x_height: 400 + v[15] / 4,
+        cap_height: 600 + v[16] / 4,
+    };
+    f.extra.push((*b"OS/2", os2_table(x.os2_kind, &os2v, 0x41, 0x41 + n.min(26) as u16 - 1)));
+    let adv_max = f.metrics.iter().map(|m| m.0).max().unwrap_or(0);
+    f.extra.push((*b"hhea", hhea_with(800, -200, v[17].abs() / 8, adv_max, (1 + v[18].abs() / 8, v[19] / 8, v[20] / 8), num_h_metrics.min(n as u16).max(1))));
+    f.extra.push((*b"post", post_v3_with(-100 + v[21] / 8, 50 + v[22].abs() / 8)));
+    // ---- gasp
+    let gasp = x.gasp.map(|g| {
+        let r = vec![(200 + (g as u16 & 63), 2u16), (400 + (g as u16 >> 2), 1), (0xFFFF, 3)];
+        f.extra.push((*b"gasp", gasp_table(1, &r)));
+        r
+    });
+    // ---- vertical metrics
+    let vert = x.vert.as_ref().map(|vs| {
+        let mut m: Vec<(u16, i16)> = (0..n).map(|g| (vs.heights[g % vs.heights.len()], vs.tsbs[g % vs.tsbs.len()])).collect();
+        let mut num_long = n as u16;
+        if vs.short_tail && n >= 2 {
+            m[n - 1].0 = m[n - 2].0;
+            num_long = (n - 1) as u16;
+        }
+        let ah_max = m.iter().map(|x| x.0).max().unwrap_or(0);
+        f.extra.push((*b"vhea", vhea_table(vs.v11, 500 + vs.vals[0], -500 + vs.vals[1], vs.vals[2].abs(), ah_max, (vs.vals[3], 1 + vs.vals[4].abs(), vs.vals[5]), num_long)));
+        f.extra.push((*b"vmtx", crate::fontgen::basic::hmtx(&m, num_long)));
+        let mut vvar = None;
+        let mut tsb_mapped = false;
+        if let Some(h) = &vs.vvar {
+            let mut regions: Vec<Region> = Vec::new();
+            for g in glyphs {
+                for t in &g.tuples {
+                    if !regions.contains(&t.region) {
+                        regions.push(t.region.clone());
+                    }
+                }
+            }
+            if regions.is_empty() || h.seed & 1 == 1 {
+                let r: Region = (0..n_axes).map(|a| implied_axis_region(if a == 0 { 16384 } else { 0 })).collect();
+                if !regions.contains(&r) {
+                    regions.push(r);
+                }
+            }
+            // advance height = pp3.y - pp4.y
+            let mut rows: Vec<Vec<i32>> = Vec::new();
+            for g in glyphs {
+                let mut row = vec![0i32; regions.len()];
+                for t in &g.tuples {
+                    let ri = regions.iter().position(|r| *r == t.region).unwrap();
+                    let get = |pn: usize| -> i32 {
+                        match &t.points {
+                            None => t.deltas[pn].1 as i32,
+                            Some(ps) => ps.iter().position(|p| *p as usize == pn).map(|k| t.deltas[k].1 as i32).unwrap_or(0),
+                        }
+                    };
+                    row[ri] += get(g.n_points + 2) - get(g.n_points + 3);
+                }
+                rows.push(row);
+            }
+            let (hbytes, model) = encode_hvar(h, n_axes, &regions, &rows);
+            let vorg = if vs.vorg_map { Some(delta_set_index_map(&[(0, 0)], 1, 1, 0)) } else { None };
+            let bytes = vvar_from_hvar(&hbytes, vorg.as_deref());
+            // (the first three offsets of VVAR have the positions of HVAR's)
+            let dec = decode_hvar(&bytes).expect("own VVAR decodes");
+            assert_eq!(dec.ivs, model.ivs, "VVAR store round trip");
+            assert_eq!(dec.adv_map, model.adv_map, "VVAR advance map round trip");
+            assert_eq!(dec.lsb_map, model.lsb_map, "VVAR tsb map round trip");
+            f.extra.push((*b"VVAR", bytes));
+            tsb_mapped = h.lsb_map;
+            vvar = Some(model);
+        }
+        VertModel { metrics: m, vvar, tsb_mapped, num_long }
+    });
+    // ---- STAT
+    let mut stat_formats = None;
+    if let Some(st) = &x.stat {
+        let mut daxes: Vec<([u8; 4], u16, u16)> = axes.iter().enumerate().map(|(i, a)| (a.tag, a.name_id, i as u16)).collect();
+        let len = daxes.len();
+        daxes.rotate_left(st.rotate as usize % len);
+        for (k, d) in daxes.iter_mut().enumerate() {
+            d.2 = match st.rotate & 3 {
+                0 => k as u16,
+                1 => (len - 1 - k) as u16,
+                2 => 3 * k as u16 + 1,
+                _ => d.2,
+            };
+        }
+        if st.extra_axis {
+            daxes.push((*b"ital", 280, 9));
+        }
+        let value_on = |ai: usize, c: &CoordSpec| -> i32 {
+            match axes.iter().position(|a| a.tag == daxes[ai].0) {
+                Some(fi) => user_value(c, &axes[fi], fi, all_regions),
+                None => ((c.r & 1) as i32) << 16,
+            }
+        };
+        let mut formats = 0u8;
+        let mut values: Vec<StatValueEnc> = Vec::new();
+        for sv in &st.values {
+            let ai = pick(daxes.len(), sv.axis);
+            let value = match sv.format {
+                1 => StatValue::F1 { axis: ai as u16, value: value_on(ai, &sv.at) },
+                2 => {
+                    let mut t = [value_on(ai, &sv.at), value_on(ai, &sv.at2), value_on(ai, &sv.at3)];
+                    t.sort();
+                    StatValue::F2 { axis: ai as u16, nominal: t[1], min: t[0], max: t[2] }
+                }
+                3 => StatValue::F3 { axis: ai as u16, value: value_on(ai, &sv.at), linked: value_on(ai, &sv.at2) },
+                _ => {
+                    let k = (sv.n4 as usize).min(daxes.len()).max(1);
+                    let cs = [&sv.at, &sv.at2, &sv.at3];
+                    StatValue::F4 { values: (0..k).map(|j| (((ai + j) % daxes.len()) as u16, value_on((ai + j) % daxes.len(), cs[j % 3]))).collect() }
+                }
+            };
+            formats |= 1 << (sv.format.clamp(1, 4) - 1);
+            values.push(StatValueEnc { value, flags: if sv.elidable { 2 } else { 0 } | if sv.older { 1 } else { 0 }, name_id: 300 + sv.name as u16 });
+        }
+        let fallback = match st.fallback {
+            0 => 2,
+            1 => 17,
+            2 => 999,
+            _ => 300,
+        };
+        f.extra.push((*b"STAT", stat_table(st.minor as u16, &daxes, st.axis_size_extra as u16, &values, fallback, st.gap as usize)));
+        stat_formats = Some(formats);
+    }
+    // ---- name
+    {
+        let m = x.name_mask;
+        let (has1, has16) = (m & 1 != 0 || m & 2 == 0, m & 2 != 0);
+        let (has2, has17) = (m & 4 != 0 || m & 8 == 0, m & 8 != 0);
+        let mut recs: Vec<(u16, u16, u16, u16, String)> = Vec::new();
+        let mut add = |id: u16, s: &str| recs.push((3, 1, 0x409, id, s.to_string()));
+        if has1 {
+            add(1, "Verif");
+        }
+        if has2 {
+            add(2, "Regular");
+        }
+        if m & 128 != 0 {
+            add(3, "1.000;VRIF;Verif-Regular");
+            add(4, "Verif Regular");
+            add(6, "Verif-Regular");
+        }
+        if has16 {
+            add(16, "Verif Typo");
+        }
+        if has17 {
+            add(17, "Text");
+        }
+        if m & 16 != 0 {
+            add(25, "VerifPS");
+        }
+        for i in 0..n_axes {
+            add(256 + i as u16, &format!("Axis {}", i));
+        }
+        add(280, "Italic");
+        for k in 0..x.instances.len() {
+            add(290 + k as u16, &format!("Instance {}", k));
+            add(295 + k as u16, &format!("VerifInst-{}", k));
+        }
+        for k in 0..6u16 {
+            add(300 + k, ["Light", "Bold", "Wide", "Caption", "Normal", "Slanted"][k as usize]);
+        }
+        if m & 32 != 0 {
+            if has1 {
+                recs.push((1, 0, 0, 1, "Verif".to_string()));
+            }
+            if has2 {
+                recs.push((1, 0, 0, 2, "Regular".to_string()));
+            }
+        }
+        if m & 64 != 0 && has1 {
+            recs.push((0, 3, 0, 1, "Verif".to_string()));
+        }
+        f.extra.push((*b"name", name_table_records(&recs, x.name_gap as usize)));
+    }
+    // ---- fvar with named instances; every instance is one of the tested locations
+    if !x.instances.is_empty() {
+        let mut list = Vec::new();
+        for (k, inst) in x.instances.iter().enumerate() {
+            let coords: Vec<i32> = axes.iter().enumerate().map(|(i, a)| user_value(&inst.coords[i % inst.coords.len()], a, i, all_regions).clamp(a.min, a.max)).collect();
+            extra_users.push(coords.clone());
+            list.push(InstanceModel { subfamily_name_id: 290 + k as u16, coords, postscript_name_id: if inst.ps { Some(295 + k as u16) } else { None } });
+        }
+        f.extra.push((*b"fvar", fvar_table(axes, &list, 0)));
+    }
+    // ---- corner locations: every axis at one of min / default / max; one region's peaks on all
+    // axes at once; one region's start / end
+    let before = extra_users.len();
+    let s = x.corner_seed;
+    extra_users.push(axes.iter().enumerate().map(|(i, a)| [a.min, a.default, a.max, a.max][(s >> (2 * i)) as usize & 3]).collect());
+    if !all_regions.is_empty() {
+        let r = &all_regions[pick(all_regions.len(), s.rotate_left(9))];
+        extra_users.push(axes.iter().zip(r.iter()).map(|(a, ar)| user_from_norm(a, ar.peak)).collect());
+        if s & 0x100 != 0 {
+            extra_users.push(axes.iter().zip(r.iter()).enumerate().map(|(i, (a, ar))| user_from_norm(a, if (s >> (10 + i)) & 1 == 0 { ar.start } else { ar.end })).collect());
+        }
+    }
+    let (mk, mu) = match &x.mvar {
+        Some(m) => {
+            let mut tags: Vec<u8> = m.tags.clone();
+            tags.sort();
+            tags.dedup();
+            (tags.iter().filter(|t| **t < 32).count(), tags.iter().filter(|t| **t >= 32).count())
+        }
+        None => (0, 0),
+    };
+    ExtBuilt {
+        vert,
+        umm,
+        gasp,
+        stat_formats,
+        stat_minor: x.stat.as_ref().map(|s| s.minor).unwrap_or(0),
+        n_instances: x.instances.len(),
+        os2_kind: x.os2_kind,
+        mvar_known_tags: mk,
+        mvar_unknown_tags: mu,
+        mvar_subtables: x.mvar.as_ref().map(|m| m.subtables as usize).unwrap_or(0),
+        mvar_long: x.mvar.as_ref().map(|m| m.long_mask & ((1u16 << m.subtables) - 1) as u8 != 0).unwrap_or(false),
+        mvar_big: x.mvar.as_ref().map(|m| m.big_mask & ((1u16 << m.subtables) - 1) as u8 != 0).unwrap_or(false),
+        has_anchor: glyphs.iter().any(|g| g.comps.iter().any(|c| matches!(c.args, CompArgs::Points(..)))),
+        name_mask: x.name_mask,
+        corner_users: extra_users.len() - before,
+    }
+}
+
+/// What the extension section asserts of one instance, beyond `check_instance`.
+fn check_ext_instance(x: &ExtBuilt, b: &Built, out_bytes: &[u8], loc: &[i16], agg: &mut Agg) -> CaseResult {
+    let at_default = loc.iter().all(|v| *v == 0);
+    // ---- a static font: none of the tables the specification lists as variation tables
+    // (STAT may stay: it is also defined for static fonts)
+    for t in [b"fvar", b"avar", b"gvar", b"cvar", b"HVAR", b"VVAR", b"MVAR"] {
+        if find_table(out_bytes, t).is_some() {
+            return Err(fail("var-table-in-output", format!("output still contains table {:?}", String::from_utf8_lossy(t))));
+        }
+    }
+    // ---- the name table the instance got is structurally valid
+    let name = find_table(out_bytes, b"name").ok_or_else(|| fail("name-table-invalid", "the instance has no name table".into()))?;
+    check_name_table(name).map_err(|e| fail("name-table-invalid", format!("at {:?}: {}", loc, e)))?;
+    let m = &b.model;
+    let need_glyphs = !x.umm.is_empty() || x.vert.is_some();
+    let out = if need_glyphs { Some(read_font(out_bytes).map_err(|e| fail("output-unreadable", e))?) } else { None };
+    // ---- USE_MY_METRICS stays on the component that had it
+    if let Some(out) = &out {
+        for (gi, ci) in &x.umm {
+            if let OutShape::Composite { components, .. } = &out.glyphs[*gi].shape {
+                if components.get(*ci).map_or(true, |c| c.flags & 0x0200 == 0) {
+                    return Err(fail("component-flags", format!("glyph {} component {} lost USE_MY_METRICS at {:?}", gi, ci, loc)));
+                }
+                agg.umm_checked += 1;
+            }
+        }
+    }
+    // ---- vertical metrics
+    if let (Some(v), Some(out)) = (&x.vert, &out) {
+        let ov = read_vertical(out_bytes)
+            .map_err(|e| fail("vertical-metrics-unreadable", format!("at {:?}: {}", loc, e)))?
+            .ok_or_else(|| fail("vertical-metrics-dropped", "the source has vhea and vmtx, the instance has neither".into()))?;
+        if ov.metrics.len() != m.glyphs.len() {
+            return Err(fail("vertical-metrics-unreadable", format!("{} vertical metrics for {} glyphs", ov.metrics.len(), m.glyphs.len())));
+        }
+        let ah_max = ov.metrics.iter().map(|x| x.0).max().unwrap_or(0);
+        if ov.advance_height_max != ah_max {
+            return Err(fail("advance-height-max", format!("vhea.advanceHeightMax {} but the largest advance height is {} at {:?}", ov.advance_height_max, ah_max, loc)));
+        }
+        // defect model: vhea and vmtx are copied from the source
+        let passthrough = find_table(out_bytes, b"vmtx") == find_table(&b.font, b"vmtx") && find_table(out_bytes, b"vhea") == find_table(&b.font, b"vhea");
+        for (gi, g) in m.glyphs.iter().enumerate() {
+            let n = g.n_points;
+            let ev = eval_glyph(n, &g.coords, &g.ends, &g.tuples, loc);
+            let (ah, tsb) = v.metrics[gi];
+            let (ah_o, tsb_o) = ov.metrics[gi];
+            let ctx = |what: &str| format!("glyph {} ({:?}) at {:?}: {}; source advance height {} tsb {} yMax {}; tuples {:?}", gi, g.kind, loc, what, ah, tsb, g.bbox.3, g.tuples);
+            if at_default {
+                if ah_o == ah && g.kind == Kind::Composite && x.has_anchor {
+                    // (the recomputed box of a composite is wrong in fonts with anchored
+                    // components, also in the default instance: known finding; a tsb derived from
+                    // its yMax inherits the error)
+                    continue;
+                }
+                if ah_o != ah || tsb_o != tsb {
+                    return Err(fail("default-vertical-metrics", ctx(&format!("default instance has advance height {} tsb {}", ah_o, tsb_o))));
+                }
+                continue;
+            }
+            let ymax_src = if g.kind == Kind::Empty { 0.0 } else { g.bbox.3 as f64 };
+            let pp3_ref = ymax_src + tsb as f64 + ev.deltas[n + 2].1;
+            let pp4_ref = ymax_src + tsb as f64 - ah as f64 + ev.deltas[n + 3].1;
+            let ah_ref = pp3_ref - pp4_ref;
+            if let Some(vv) = &v.vvar {
+                let d = vv.advance_delta(gi as u16, loc).ok_or_else(|| fail("vvar-row-missing", format!("glyph {}: VVAR has no delta set", gi)))?;
+                assert!((ah as f64 + d - ah_ref).abs() < 1e-6, "VVAR/gvar advance height disagree in the generated font: {} vs {}", ah as f64 + d, ah_ref);
+            }
+            if ev.deltas[n + 2].1 != 0.0 || ev.deltas[n + 3].1 != 0.0 {
+                agg.vert_off_default_nonzero += 1;
+            }
+            let mut bad: Option<(&str, String)> = None;
+            if ah_ref >= 1.0 && (ah_o as f64 - ah_ref).abs() > TOL {
+                bad = Some(("advance-height", ctx(&format!("advance height {} but phantom points 3 and 4{} give {:.4}", ah_o, if v.vvar.is_some() { " (and VVAR)" } else { "" }, ah_ref))));
+            }
+            let og = &out.glyphs[gi];
+            let ymax_o = if matches!(og.shape, OutShape::Empty) { 0.0 } else { og.bbox.3 as f64 };
+            let pp3_o = ymax_o + tsb_o as f64;
+            // (composite boxes are wrong in fonts with anchored components: known finding)
+            let assertable = match g.kind {
+                Kind::Simple => true,
+                Kind::Empty => ev.deltas[n + 2].1 == 0.0,
+                Kind::Composite => !x.has_anchor,
+            };
+            if bad.is_none() && assertable {
+                let phantom_ok = (pp3_o - pp3_ref).abs() <= TOL;
+                let vvar_ok = match (&v.vvar, v.tsb_mapped) {
+                    (Some(vv), true) => {
+                        let l = tsb as f64 + vv.lsb_delta(gi as u16, loc).ok_or_else(|| fail("vvar-row-missing", format!("glyph {}: VVAR has no tsb delta set", gi)))?;
+                        (tsb_o as f64 - l).abs() <= TOL
+                    }
+                    _ => false,
+                };
+                if !phantom_ok && !vvar_ok {
+                    bad = Some(("tsb-phantom", ctx(&format!("tsb {} with output yMax {} puts phantom point 3 at {} but it moves to {:.4}", tsb_o, ymax_o, pp3_o, pp3_ref))));
+                }
+            }
+            match bad {
+                None => agg.vert_checked += 1,
+                Some((sig, msg)) => {
+                    if passthrough {
+                        agg.vert_defect += 1;
+                        agg.deferred.get_or_insert(fail("vertical-metrics-not-instanced", format!("[vhea and vmtx of the instance are byte-for-byte those of the source] {}: {}", sig, msg)));
+                        break;
+                    }
+                    return Err(fail(sig, msg));
+                }
+            }
+        }
+    }
+    // ---- MVAR: vhea fields and gasp ranges
+    let adj_of = |tag: &[u8; 4]| -> Option<f64> {
+        match &m.mvar {
+            Some((recs, ivs)) => recs.iter().find(|r| r.0 == *tag).and_then(|r| ivs.adjustment(r.1, r.2, loc)),
+            None => None,
+        }
+    };
+    let src_v = vhea_fields(&b.font).expect("own vhea");
+    if !src_v.is_empty() {
+        let out_v = vhea_fields(out_bytes).map_err(|e| fail("vertical-metrics-unreadable", e))?;
+        for (tag, sv) in &src_v {
+            let ov = out_v.iter().find(|f| f.0 == *tag).map(|f| f.1).ok_or_else(|| fail("vertical-metrics-dropped", "the instance has no vhea".into()))?;
+            match adj_of(tag) {
+                None => {
+                    if ov != *sv {
+                        return Err(fail("metric-without-mvar-changed", format!("vhea {:?} changed from {} to {} at {:?} without an MVAR record", String::from_utf8_lossy(tag), sv, ov, loc)));
+                    }
+                }
+                Some(a) => {
+                    let r = *sv as f64 + a;
+                    if at_default && ov != *sv {
+                        return Err(fail("default-mvar", format!("vhea {:?} is {} in the default instance, source {}", String::from_utf8_lossy(tag), ov, sv)));
+                    }
+                    if (ov as f64 - r).abs() > TOL {
+                        let f = fail(
+                            if ov == *sv { "mvar-vhea-not-applied" } else { "mvar" },
+                            format!("vhea {:?} is {} at {:?}, reference {:.4} = {} + {:.4}; MVAR {:?}", String::from_utf8_lossy(tag), ov, loc, r, sv, a, m.mvar),
+                        );
+                        if ov == *sv {
+                            // defect model: the MVAR record is not applied at all
+                            agg.vhea_mvar_defect += 1;
+                            agg.deferred.get_or_insert(f);
+                        } else {
+                            return Err(f);
+                        }
+                    } else {
+                        agg.vhea_mvar_checked += 1;
+                    }
+                }
+            }
+        }
+    }
+    if let Some(src_g) = &x.gasp {
+        let out_g = gasp_ranges(out_bytes).map_err(|e| fail("gasp-unreadable", e))?.ok_or_else(|| fail("gasp-dropped", "the source has a gasp table, the instance has none".into()))?;
+        if out_g.len() != src_g.len() {
+            return Err(fail("gasp-unreadable", format!("{} gasp ranges, source {}", out_g.len(), src_g.len())));
+        }
+        for (i, (sp, sf)) in src_g.iter().enumerate() {
+            let (op, of) = out_g[i];
+            let tag = [b'g', b's', b'p', b'0' + i as u8];
+            let adj = adj_of(&tag);
+            let r = *sp as f64 + adj.unwrap_or(0.0);
+            if of != *sf || ((adj.is_none() || at_default) && op != *sp) {
+                return Err(fail("gasp-changed", format!("gasp range {} is ({}, {}) at {:?}, source ({}, {})", i, op, of, loc, sp, sf)));
+            }
+            if adj.is_some() && r >= 1.0 && r <= 65534.0 {
+                if (op as f64 - r).abs() > TOL {
+                    let f = fail(
+                        if op == *sp { "mvar-gasp-not-applied" } else { "mvar" },
+                        format!("gasp rangeMaxPPEM[{}] is {} at {:?}, reference {:.4} = {} + {:.4}", i, op, loc, r, sp, adj.unwrap_or(0.0)),
+                    );
+                    if op == *sp {
+                        agg.gasp_defect += 1;
+                        agg.deferred.get_or_insert(f);
+                    } else {
+                        return Err(f);
+                    }
+                } else {
+                    agg.gasp_checked += 1;
+                }
+            }
+        }
+    }
+    Ok(())
+}
+
+fn classify_ext(x: &ExtBuilt, b: &Built, agg: &Agg, rec: &mut Rec) {
+    rec.class(&format!("ext:axes:{}", b.axes.len()));
+    rec.class(&format!("ext:OS/2-kind:{}", ["v0-68-bytes", "v0", "v1", "v2", "v3", "v4", "v5"][x.os2_kind.min(6) as usize]));
+    match &x.vert {
+        None => rec.class("ext:vertical:none"),
+        Some(v) => {
+            rec.class(match (&v.vvar, v.tsb_mapped) {
+                (None, _) => "ext:vertical:vmtx,no-VVAR",
+                (Some(_), false) => "ext:vertical:VVAR",
+                (Some(_), true) => "ext:vertical:VVAR+tsb-map",
+            });
+            rec.class_if(v.vvar.as_ref().map_or(false, |m| m.adv_map.is_some()), "ext:vertical:VVAR-advance-map");
+            rec.class_if((v.num_long as usize) < b.model.glyphs.len(), "ext:vertical:vmtx-short-tail");
+        }
+    }
+    rec.class_if(agg.vert_checked > 0, "ext:vertical-metric-agrees-off-default");
+    rec.class_if(agg.vert_off_default_nonzero > 0, "ext:vertical:phantom-3/4-delta-nonzero");
+    rec.class_if(agg.vert_defect > 0, "ext:vertical:attributed-not-instanced");
+    rec.class_if(agg.vhea_mvar_checked > 0, "ext:MVAR-vhea-field-agrees");
+    rec.class_if(agg.vhea_mvar_defect > 0, "ext:MVAR-vhea:attributed-not-applied");
+    rec.class_if(agg.gasp_checked > 0, "ext:MVAR-gasp-agrees");
+    rec.class_if(agg.gasp_defect > 0, "ext:MVAR-gasp:attributed-not-applied");
+    rec.class_if(x.gasp.is_some(), "ext:gasp");
+    rec.class_if(agg.umm_checked > 0, "ext:USE_MY_METRICS");
+    rec.class_if(x.has_anchor, "ext:composite-anchored");
+    match x.stat_formats {
+        None => rec.class("ext:STAT:none"),
+        Some(f) => {
+            rec.class(&format!("ext:STAT:1.{}", x.stat_minor));
+            for k in 0..4 {
+                rec.class_if(f >> k & 1 == 1, &format!("ext:STAT:format{}", k + 1));
+            }
+            rec.class_if(f == 0, "ext:STAT:no-axis-values");
+        }
+    }
+    rec.class(&format!("ext:named-instances:{}", x.n_instances));
+    rec.class_if(x.name_mask & 1 == 0 && x.name_mask & 2 != 0, "ext:name:no-id-1");
+    rec.class_if(x.name_mask & 4 == 0 && x.name_mask & 8 != 0, "ext:name:no-id-2");
+    rec.class_if(x.name_mask & 128 == 0, "ext:name:no-ids-3,4,6");
+    rec.class_if(x.name_mask & 32 != 0, "ext:name:mac-records");
+    if b.model.mvar.is_some() {
+        rec.class(&format!("ext:MVAR:subtables:{}", x.mvar_subtables));
+        rec.class_if(x.mvar_long, "ext:MVAR:LONG_WORDS");
+        rec.class_if(x.mvar_big, "ext:MVAR:unreferenced-big-row");
+        rec.class_if(x.mvar_unknown_tags > 0, "ext:MVAR:unknown-tags");
+        rec.class(&format!("ext:MVAR:known-tags:{}", match x.mvar_known_tags { 0 => "0", 1..=3 => "1-3", 4..=7 => "4-7", _ => "8+" }));
+        if let Some((recs, _)) = &b.model.mvar {
+            for r in recs {
+                if MVAR_TAGS_EXT[..32].iter().any(|t| **t == r.0) {
+                    rec.class(&format!("ext:MVAR:tag:{}", String::from_utf8_lossy(&r.0)));
+                }
+            }
+        }
+    } else {
+        rec.class("ext:MVAR:none");
+    }
+    let s = &b.stats;
+    rec.class_if(s.point_word_run_128 > 0, "ext:point-word-run-128");
+    rec.class_if(s.delta_zero_run_64 > 0, "ext:delta-zero-run-64");
+    rec.class_if(s.delta_word_run_64 > 0, "ext:delta-word-run-64");
+    rec.class_if(b.model.glyphs.iter().any(|g| g.n_points > 255), "ext:glyph>255-points");
+    rec.class_if(b.model.glyphs.iter().any(|g| g.tuples.iter().any(|t| t.points.is_none()) && g.tuples.iter().any(|t| t.points.is_some())), "ext:all-points+point-list-in-one-glyph");
+    rec.class(&format!("ext:corner-users:{}", x.corner_users));
+}
+
+pub fn check_ext_case(xc: &ExtCase, rec: &mut Rec) -> CaseResult {
+    let b = build_ext(&xc.base, Some(&xc.ext));
+    check_case_built(&xc.base, &b, rec)
 }
 
 // ------------------------------------------------------------------ fixture variable fonts
@@ -2727,6 +3610,7 @@ impl Property for C12 {
         "proptest generates a variation model (1-3 axes with optional avar; 1-5 glyphs: simple with coincident coordinates, big 70-300 point, composite with xy offsets / anchor points, empty; 0-4 tuple variations per glyph with implied or intermediate regions, all / private / shared point sets incl. phantom points, byte and word deltas; hmtx; optional HVAR built to agree with the phantom deltas, direct or via DeltaSetIndexMaps of 1-4 byte entries; optional MVAR); \
          my own gvar/HVAR/MVAR/fvar/avar/glyf encoders serialise it with free encoding choices (point/delta run splits and widths, count width, shared/embedded peaks, shared point numbers, short/long offsets, padding); \
          variations::instance is called at the default and five further user tuples (region start/peak/end pre-images ±raw units, min, max, inside, outside); the output is read by independent glyf/hmtx/OS2/hhea/post readers and compared with an f64 evaluation of the model (region scalars, explicit deltas, IUP per contour) at the returned normalised tuple, tolerance 1 unit (+1/16 for 16-fractional-bit arithmetic); exact equality at the default location; no *var tables; Font::is_variable() false. \
+         Section model-ext: the same model and checks on fonts with up to 4 axes that also carry vhea/vmtx (optional VVAR agreeing with the gvar deltas of phantom points 3/4; advance heights and top side bearings against the reference), an MVAR over every registered value tag plus unknown ones through 1-4 ItemVariationData subtables (LONG_WORDS, extra word columns, unreferenced rows, column subsets; vhea and gasp targets included), OS/2 versions 0 (68 and 78 bytes) to 5, STAT 1.0-1.2 with axis value formats 1-4 or no STAT, named instances (each instanced exactly), a name table with a free choice of records, longer avar maps, USE_MY_METRICS, more anchored components, glyphs beyond 255 points, and corner locations (axes at min/default/max, a region's peaks / starts / ends on all axes at once). \
          Non-trivial = some tuple had a scalar strictly between 0 and 1 and some point received an inferred delta; distinct by hash of the generated font."
             .to_string()
     }
@@ -2750,5 +3634,10 @@ impl Property for C12 {
         let n = ctx.cases(2_000, 400_000);
         ctx.section("cff2-model", n, cff2_case_strategy(), |c, rec| check_cff2_case(c, rec));
         ctx.enumerate("cff2-fixtures", 2 + 2 * per_font, false, |i, rec| check_cff2_fixture(i, rec));
+        // extension: vertical metrics (vhea/vmtx/VVAR), every MVAR value tag through a multi-subtable
+        // store, OS/2 versions 0-5, STAT formats 1-4 / no STAT, named instances, 4 axes, forced gvar
+        // encodings, corner coordinates
+        let n = ctx.cases(4_000, 120_000);
+        ctx.section("model-ext", n, ext_case_strategy(), |c, rec| check_ext_case(c, rec));
     }
 }
